@@ -343,6 +343,10 @@ def parse_image_macro(text, index=0, defaults=(), names=(), fname='', fields=Non
     return end, crop_rect, fname, frame, alt, result
 
 def _format_params(params, full_params, *args, **kwargs):
+    if kwargs.get('mode', {}).get('html'):
+        # In HTML mode the text has been HTML-escaped by the skool parser, which
+        # corrupts the '<' and '>' alignment options of a format specification
+        params = re.sub('{[^{}]*}', lambda m: html.unescape(m.group()), params)
     try:
         return params.format(*args, **kwargs)
     except IndexError as e:
